@@ -72,7 +72,8 @@ def shape(target: str) -> Callable:
 
 
 class _UF:
-    def __init__(self, fn: Callable, result: Any, length: Any, name: str, inverse_of: Any = None, upper: Any = None):
+    def __init__(self, fn: Callable, result: Any, length: Any, name: str, inverse_of: Any = None, upper: Any = None, blockwise: Any = None):
+        self.blockwise = blockwise  # (block size, index of the counter arg, index of the payload arg): counter-mode definition law
         self.upper = upper  # optional: upper bound of an int result as a function of the (concrete) arguments
         self.fn = fn
         self.result = result
@@ -85,12 +86,16 @@ class _UF:
         return self.fn(*a, **k)
 
 
-def uninterpreted(result: Any = bytes, length: Any = None, name: Optional[str] = None, inverse_of: Any = None, upper: Any = None) -> Callable:
+def uninterpreted(result: Any = bytes, length: Any = None, name: Optional[str] = None, inverse_of: Any = None, upper: Any = None,
+                  blockwise: Any = None) -> Callable:
     """Spec-level uninterpreted function.  Symbolically: fresh result + congruence; at run time: fn.
-    inverse_of=(F, shared, payload) adds the law  G(shared.., F(shared.., x)) == x  (A-crypto-laws)."""
+    inverse_of=(F, shared, payload) adds the law  G(shared.., F(shared.., x)) == x  (A-crypto-laws).
+    blockwise=(bs, counter_idx, payload_idx) adds the definition of counter mode: on a payload of k*bs bytes (k concrete, > 1) the
+    function is the concatenation of its applications to the single blocks with the big-endian 128-bit counter advanced by the block
+    number (so only the single-block function stays uninterpreted)."""
 
     def deco(fn: Callable) -> _UF:
-        u = _UF(fn, result, length, name or fn.__name__, inverse_of, upper)
+        u = _UF(fn, result, length, name or fn.__name__, inverse_of, upper, blockwise)
         REGISTRY["ufs"][u.name] = u
         return u
 
